@@ -122,6 +122,7 @@ type VC struct {
 	revealed  map[string]bool
 	snaps     map[string]string
 	curState  *State
+	tsubst    []map[*types.TypeParam]types.Type
 	oracle    *pathOracle
 	posCount  map[string]int
 	loopOld   map[types.Object]Val
@@ -442,6 +443,7 @@ func (vc *VC) mergeVal(c string, a, b Val, name string) Val {
 // ---- fresh values of a type ----------------------------------------------------------
 
 func (vc *VC) freshVal(t types.Type, name string) Val {
+	t = vc.ts(t)
 	switch classify(t) {
 	case kSlice:
 		return &SliceV{vc.declare(name+"#arr", SRef), vc.declare(name+"#len", BV(64))}
@@ -463,6 +465,7 @@ func (vc *VC) freshVal(t types.Type, name string) Val {
 }
 
 func (vc *VC) zeroVal(t types.Type) Val {
+	t = vc.ts(t)
 	switch classify(t) {
 	case kSlice:
 		return &SliceV{"nil", bvLit(0, 64)}
